@@ -16,13 +16,17 @@ pub struct AccessStructure {
     version: Version,
     // Use a hash-map to efficiently find dimensions by name.
     dimensions: HashMap<String, Dimension>,
+    // ID given to the next attribute created. It never decreases, so that the
+    // ID of a deleted attribute is never given to another attribute.
+    next_id: usize,
 }
 
 impl AccessStructure {
     pub fn new() -> Self {
         Self {
-            version: Version::V1,
+            version: Version::V2,
             dimensions: HashMap::new(),
+            next_id: 0,
         }
     }
 
@@ -107,16 +111,14 @@ impl AccessStructure {
         encryption_hint: EncryptionHint,
         after: Option<&str>,
     ) -> Result<(), Error> {
-        let cnt = self
-            .dimensions
-            .values()
-            .map(Dimension::nb_attributes)
-            .sum::<usize>();
-
+        let next_id = self.next_id.checked_add(1).ok_or_else(|| {
+            Error::OperationNotPermitted("no attribute ID left".to_string())
+        })?;
         self.dimensions
             .get_mut(&attribute.dimension)
             .ok_or_else(|| Error::DimensionNotFound(attribute.dimension.clone()))?
-            .add_attribute(attribute.name, encryption_hint, after, cnt)?;
+            .add_attribute(attribute.name, encryption_hint, after, self.next_id)?;
+        self.next_id = next_id;
 
         Ok(())
     }
@@ -346,10 +348,7 @@ fn combine(
 
 impl Default for AccessStructure {
     fn default() -> Self {
-        Self {
-            version: Version::V1,
-            dimensions: HashMap::new(),
-        }
+        Self::new()
     }
 }
 
@@ -364,7 +363,8 @@ mod serialization {
         type Error = Error;
 
         fn length(&self) -> usize {
-            1 + to_leb128_len(self.dimensions.len())
+            1 + to_leb128_len(self.next_id)
+                + to_leb128_len(self.dimensions.len())
                 + self
                     .dimensions
                     .iter()
@@ -377,6 +377,7 @@ mod serialization {
 
         fn write(&self, ser: &mut Serializer) -> Result<usize, Self::Error> {
             let mut n = ser.write_leb128_u64(self.version as u64)?;
+            n += ser.write_leb128_u64(self.next_id as u64)?;
             n += ser.write_leb128_u64(self.dimensions.len() as u64)?;
             self.dimensions.iter().try_for_each(|(name, dimension)| {
                 n += ser.write_vec(name.as_bytes())?;
@@ -388,7 +389,12 @@ mod serialization {
 
         fn read(de: &mut Deserializer) -> Result<Self, Self::Error> {
             let version = de.read_leb128_u64()?;
-            let dimensions = if version == Version::V1 as u64 {
+            let next_id = if version == Version::V2 as u64 {
+                Some(<usize>::try_from(de.read_leb128_u64()?)?)
+            } else {
+                None
+            };
+            let dimensions = if version == Version::V1 as u64 || version == Version::V2 as u64 {
                 (0..de.read_leb128_u64()?)
                     .map(|_| {
                         let name = String::from_utf8(de.read_vec()?)
@@ -402,9 +408,20 @@ mod serialization {
                     "unable to deserialize versions prior to V3".to_string(),
                 ))
             }?;
+            // Structures serialized before V2 did not store the next ID: use
+            // the first ID greater than the ones in use.
+            let next_id = next_id.unwrap_or_else(|| {
+                dimensions
+                    .values()
+                    .flat_map(Dimension::attributes)
+                    .map(|a| a.get_id().saturating_add(1))
+                    .max()
+                    .unwrap_or(0)
+            });
             Ok(Self {
-                version: Version::V1,
+                version: Version::V2,
                 dimensions,
+                next_id,
             })
         }
     }
